@@ -345,7 +345,15 @@ def c14Dispatch (toks : List String) : Option String :=
     | none => some "bad-op"
   | "pkcs8" :: _ => some "ok"
   | "pubpem" :: _ => some "ok"
-  | ["loader", _, _, variant] => some (if variant = "same" then "accept" else "reject")
+  | ["loader", _, _, variant] => some (if variant = "same" || variant = "sec1" then "accept" else "reject")
+  | ["sigdec", sig] =>
+    -- sm2.SignDataToSignDigit (as repaired): the strict DER parser; integers printed like big.Int.Text(16)
+    let hex (v : Int) : String := (if v < 0 then "-" else "") ++ String.ofList (Nat.toDigits 16 v.natAbs)
+    some (match ofHex sig with
+      | none => "bad-op"
+      | some b => match Spec.DER.decSig b with
+        | some (r, s) => "ok " ++ hex r ++ " " ++ hex s
+        | none => "err")
   | _ => none
 
 end Driver
